@@ -502,6 +502,10 @@ class SymArr:
             rc = and_(cond, region(vidx))
             if rc is False:
                 return old(sidx)
+            if rc is True:
+                # whole-array update: do not evaluate the overwritten contents as well (a chain of n in-place
+                # updates would otherwise be evaluated 2**n times)
+                return cast_value(value_at(vidx), kind)
             return ite(rc, cast_value(value_at(vidx), kind), old(sidx))
 
         st.fn = fn
